@@ -269,7 +269,7 @@ pub fn run_c09(ctx: &Ctx) -> i32 {
         "L1: Decoder::decode on a caller-owned BytesMut; the harness drops the body of an oversized frame the way the connection layer is specified to (the socket leg exercises the real one)".into(),
         "harness frame table computed from header length fields only".into(),
     ];
-    let nstreams = if cfg!(miri) { 3 } else { ctx.n(2000, 30000) };
+    let nstreams = if cfg!(miri) { 3 } else { ctx.n(2000, 6000) };
     let next = AtomicU64::new(0);
     let shared = Mutex::new(ev0);
     let deadline = if ctx.budget_s > 0 { Some(std::time::Instant::now() + std::time::Duration::from_secs(ctx.budget_s)) } else { None };
@@ -671,7 +671,7 @@ pub fn run_c10(ctx: &Ctx) -> i32 {
     // grid: thorough = all, quick = all opcodes x a seeded 5% sample of the other dimensions
     let per_op = GRID / 256;
     let sample_every: u64 = 1;
-    let n_other = if miri { 40 } else { ctx.n(200_000, 4_000_000) };
+    let n_other = if miri { 40 } else { ctx.n(200_000, 1_000_000) };
     let next = AtomicU64::new(0);
     let progress = AtomicU64::new(0);
     let current: Mutex<Vec<Option<String>>> = Mutex::new(vec![None; ctx.workers]);
